@@ -73,4 +73,12 @@ PROPS = {
         "assumptions": ["declared inputs carry a tensor type with a shape of rank >= 1 (the property's quantifier); Go iterates the shape map in random order, only accept/reject is compared"],
         "explain": {"C13_signatures": "Eval vm_compute in (accepts (sc_graph the_case) (sc_feed the_case), run (sc_graph the_case) (sc_feed the_case), in_domain the_case)."},
     },
+    "C18": {
+        "templates": ["TableC18.v"],
+        "check_modules": ["theories/Check/CheckC18.v"],
+        "theorem": "C18_*",
+        "trusted_base": COMMON_TB + ["proto.Unmarshal (third party) is not modelled: M starts after it; the byte-level half is explored under recover(), not proved"],
+        "assumptions": ["the set of implemented opset versions is read from opset.go by probing ResolveOperatorGetter over versions -2..40"],
+        "explain": {"C18_load": "Eval vm_compute in (load supported_opsets {| m_inits := lc_inits the_case; m_opsets := lc_opsets the_case |}, holds supported_opsets the_case, map init_status_of (lc_inits the_case))."},
+    },
 }
